@@ -52,6 +52,7 @@ var Mutants = map[string][]Mutant{
 		{"ToPDF forgets ReplaceArcs", "path.go", `\tp = p\.ReplaceArcs\(\)\n\n\tsb := strings\.Builder\{\}\n\tvar x, y float64\n\tfor i := 0; i < len\(p\.d\); \{\n\t\tcmd := p\.d\[i\]\n\t\tswitch cmd \{\n\t\tcase MoveToCmd:\n\t\t\tx, y = p\.d\[i\+1\], p\.d\[i\+2\]\n\t\t\tfmt\.Fprintf\(&sb, " %v %v m"`, "\tsb := strings.Builder{}\n\tvar x, y float64\n\tfor i := 0; i < len(p.d); {\n\t\tcmd := p.d[i]\n\t\tswitch cmd {\n\t\tcase MoveToCmd:\n\t\t\tx, y = p.d[i+1], p.d[i+2]\n\t\t\tfmt.Fprintf(&sb, \" %v %v m\"", "E10.consumer"},
 	},
 	"C04": {
+		{"offset keeps the arc rotation in radians", "path_stroke.go", `(?s)rot:    phi \* 180\.0 / math\.Pi,(.*?)cur\.rot\*math\.Pi/180\.0, rEnd\)(.*?)cur\.rot\*math\.Pi/180\.0, lEnd\)`, "rot:    phi,${1}cur.rot, rEnd)${2}cur.rot, lEnd)", "E8.units"},
 		{"Offset uses the orientation of the first sub-path", "path_stroke.go", `\t\tif pi\.Closed\(\) && !FastStroke \{\n\t\t\tif pi\.CCW\(\) \{\n\t\t\t\tr = r\.Settle\(Positive\)`, "\t\tif pi.Closed() && !FastStroke {\n\t\t\tif p.CCW() {\n\t\t\t\tr = r.Settle(Positive)", "E11.subpath-loop"},
 		{"zero-length Close leaves the sub-path open", "path_stroke.go", `(\t\tcase CloseCmd:\n\t\t\tend = Point\{p\.d\[i\+1\], p\.d\[i\+2\]\}\n)(\t\t\tif !Equal\(start\.X, end\.X\) \|\| !Equal\(start\.Y, end\.Y\) \{)`, "${1}\t\t\tif Equal(start.X, end.X) && Equal(start.Y, end.Y) {\n\t\t\t\tbreak\n\t\t\t}\n${2}", "E11.cap-join"},
 		{"Offset caps open paths", "path_stroke.go", `rhs, lhs := pi\.offset\(w, ButtCap, RoundJoin, false, tolerance\)`, `rhs, lhs := pi.offset(w, ButtCap, RoundJoin, true, tolerance)`, "E11.cap-join"},
@@ -59,6 +60,8 @@ var Mutants = map[string][]Mutant{
 		{"closed flag also set by MoveTo", "path_stroke.go", `\t\tcase MoveToCmd:\n\t\t\tend = Point\{p\.d\[i\+1\], p\.d\[i\+2\]\}\n\t\tcase LineToCmd:\n\t\t\tend = Point\{p\.d\[i\+1\], p\.d\[i\+2\]\}\n\t\t\tn := end`, "\t\tcase MoveToCmd:\n\t\t\tend = Point{p.d[i+1], p.d[i+2]}\n\t\t\tclosed = false\n\t\tcase LineToCmd:\n\t\t\tend = Point{p.d[i+1], p.d[i+2]}\n\t\t\tn := end", "E11.cap-join"},
 	},
 	"C05": {
+		{"SplitAt copies an uncut quad without adding its length", "path.go", `\t\t\t\tif j == len\(ts\) \{\n\t\t\t\t\tq\.QuadTo\(cp\.X, cp\.Y, end\.X, end\.Y\)`, "\t\t\t\tif j == len(ts) || T+quadraticBezierLength(start, cp, end) < ts[j] {\n\t\t\t\t\tq.QuadTo(cp.X, cp.Y, end.X, end.Y)", "E2.accumulator-advance"},
+		{"SplitAt's line case advances the position only when it cut", "path.go", `\t\t\t\t\tif Tcurve < T\+dT \{\n\t\t\t\t\t\tq\.LineTo\(end\.X, end\.Y\)\n\t\t\t\t\t\}\n\t\t\t\t\tT \+= dT\n`, "\t\t\t\t\tif Tcurve < T+dT {\n\t\t\t\t\t\tq.LineTo(end.X, end.Y)\n\t\t\t\t\t} else {\n\t\t\t\t\t\tT += dT\n\t\t\t\t\t}\n", "E2.accumulator-advance"},
 		{"negative offset: one period added once", "path.go", `\t\toffset = math\.Mod\(offset, dTotal\) \+ dTotal\n`, "\t\toffset += dTotal\n", "E11.dash-offset-range"},
 		{"checkDash subtracts the start position", "path.go", `if length <= pos\+dd\[i\] \{`, "if length <= dd[i]-pos {", "E11.dash-cover"},
 		{"dashCanonical reduces the offset by the undoubled sum", "path.go", `\t\td = d\[:mid\]\n\t\}\n\treturn offset, d\n`, "\t\td = d[:mid]\n\t}\n\tdTotal := 0.0\n\tfor _, dd := range d {\n\t\tdTotal += dd\n\t}\n\toffset = math.Mod(offset, dTotal)\n\treturn offset, d\n", "E11.dash-period"},
@@ -67,6 +70,8 @@ var Mutants = map[string][]Mutant{
 		{"arc cut relative to the arc start", "path.go", `ellipseSplit\(rx, ry, phi, cx, cy, startTheta, theta2, theta\)`, `ellipseSplit(rx, ry, phi, cx, cy, theta1, theta2, theta)`, "E11.cut-carried"},
 	},
 	"C06": {
+		{"ellipse hit angle with straight radii", "path_intersection_util.go", `angle := math\.Atan2\(y\*radius\.X, x\*radius\.Y\)`, "angle := math.Atan2(y*radius.Y, x*radius.X)", "E3.ellipse-param-angle"},
+		{"ellipse hit angle with swapped coordinates", "path_intersection_util.go", `angle := math\.Atan2\(y\*radius\.X, x\*radius\.Y\)`, "angle := math.Atan2(x*radius.Y, y*radius.X)", "E3.ellipse-param-angle"},
 		{"ray hull ignores the control point", "path_intersection.go", `ymax := math\.Max\(math\.Max\(start\.Y, end\.Y\), cp\.Y\)`, `ymax := math.Max(start.Y, end.Y)`, "E3.ray-hull"},
 		{"Contains ignores the fill rule", "path.go", `\treturn fillRule\.Fills\(n\)\n`, "\treturn n != 0\n", "E9.contains"},
 		{"Windings looks at the whole path only", "path.go", `\tfor _, pi := range p\.Split\(\) \{\n\t\tzs := pi\.RayIntersections\(x, y\)`, "\tfor _, pi := range []*Path{p} {\n\t\tzs := pi.RayIntersections(x, y)", "E9.subpaths"},
@@ -77,6 +82,7 @@ var Mutants = map[string][]Mutant{
 		{"Join passes radians to ArcTo", "path.go", `p\.ArcTo\(d\[1\], d\[2\], d\[3\]\*180\.0/math\.Pi, large, sweep, d\[5\], d\[6\]\)`, `p.ArcTo(d[1], d[2], d[3], large, sweep, d[5], d[6])`, "E8.units"},
 	},
 	"C08": {
+		{"FastBounds skips the start point of later sub-paths", "path.go", `(?s)\t\tcase MoveToCmd, LineToCmd, CloseCmd:\n(\t\t\tend = Point\{p\.d\[i\+1\], p\.d\[i\+2\]\}\n)(\t\t\txmin = math\.Min\(xmin, end\.X\)\n\t\t\txmax = math\.Max\(xmax, end\.X\)\n\t\t\tymin = math\.Min\(ymin, end\.Y\)\n\t\t\tymax = math\.Max\(ymax, end\.Y\)\n\t\tcase QuadToCmd:\n\t\t\tcp := Point\{p\.d\[i\+1\], p\.d\[i\+2\]\}\n\t\t\tend = Point\{p\.d\[i\+3\], p\.d\[i\+4\]\}\n\t\t\txmin = math\.Min\(xmin, math\.Min\(cp\.X, end\.X\)\))`, "\t\tcase MoveToCmd:\n${1}\t\tcase LineToCmd, CloseCmd:\n${1}${2}", "E3.hull"},
 		{"FastBounds shadows the carried end point", "path.go", `\t\t\tcp := Point\{p\.d\[i\+1\], p\.d\[i\+2\]\}\n\t\t\tend = Point\{p\.d\[i\+3\], p\.d\[i\+4\]\}\n\t\t\txmin = math\.Min\(xmin, math\.Min\(cp\.X, end\.X\)\)`, "\t\t\tcp, end := Point{p.d[i+1], p.d[i+2]}, Point{p.d[i+3], p.d[i+4]}\n\t\t\txmin = math.Min(xmin, math.Min(cp.X, end.X))", "E2.carried-shadow"},
 		{"FastBounds quad max uses Min", "path.go", `xmax = math\.Max\(xmax, math\.Max\(cp\.X, end\.X\)\)`, `xmax = math.Max(xmax, math.Min(cp.X, end.X))`, "E3.homogeneity"},
 		{"FastBounds cubic ymin forgets cp2", "path.go", `ymin = math\.Min\(ymin, math\.Min\(cp1\.Y, math\.Min\(cp2\.Y, end\.Y\)\)\)`, `ymin = math.Min(ymin, math.Min(cp1.Y, end.Y))`, "E3."},
@@ -94,6 +100,7 @@ var Mutants = map[string][]Mutant{
 		{"quad case reads offset 5", "path.go", `\t\tcase QuadToCmd:\n\t\t\tcp := Point\{p\.d\[i\+1\], p\.d\[i\+2\]\}\n\t\t\tend = Point\{p\.d\[i\+3\], p\.d\[i\+4\]\}\n\t\t\txmin = math\.Min\(xmin, math\.Min\(cp\.X, end\.X\)\)`, "\t\tcase QuadToCmd:\n\t\t\tcp := Point{p.d[i+1], p.d[i+2]}\n\t\t\tend = Point{p.d[i+5], p.d[i+6]}\n\t\t\txmin = math.Min(xmin, math.Min(cp.X, end.X))", "E2.layout"},
 	},
 	"C10": {
+		{"Append adopts its first non-empty argument", "path.go", `\t\tif !q\.Empty\(\) \{\n\t\t\tp\.d = append\(p\.d, q\.d\.\.\.\)\n\t\t\}\n`, "\t\tif q.Empty() {\n\t\t\tcontinue\n\t\t} else if len(p.d) == 0 {\n\t\t\tp = q\n\t\t\tcontinue\n\t\t}\n\t\tp.d = append(p.d, q.d...)\n", "E1.no-mutation"},
 		{"LineTo picks the axis on signed components", "path.go", `if math\.Abs\(da\.Y\) < math\.Abs\(da\.X\) \{`, "if da.Y < da.X {", "E3.dominant-axis"},
 		{"Join's close repair runs past the sub-path", "path.go", `\t\tif cmd == MoveToCmd \{\n\t\t\tbreak\n\t\t\} else if cmd == CloseCmd \{\n\t\t\tp\.d\[i\+1\] = end\.X`, "\t\tif cmd == CloseCmd {\n\t\t\tp.d[i+1] = end.X", "E2.close-rewrite"},
 		{"replace loses its copy-on-write", "path.go", `\t\t\t\tp = p\.Copy\(\)\n\t\t\t\tcopied = true`, "\t\t\t\tcopied = true", "E1.no-mutation"},
@@ -171,6 +178,8 @@ var Mutants = map[string][]Mutant{
 		{"setter writes the stack", "canvas.go", `func \(c \*Context\) SetStrokeWidth\(width float64\) \{\n`, "func (c *Context) SetStrokeWidth(width float64) {\n\tc.stack = nil\n", "E11.ctx-setter"},
 	},
 	"C16": {
+		{"hyphen drawn at every flagged one-glyph penalty", "text.go", `items\[bi\]\.Size == 1 && glyphs\[bg\]\.Text == '\\u00AD' \{`, "items[bi].Flagged && items[bi].Size == 1 {", "E11.hyphen-guard"},
+		{"LinebreakGlyphs draws a hyphen at every flagged penalty", "text/linebreak.go", `if item\.Type == PenaltyType && item\.Flagged && item\.Width != 0\.0 \{`, "if item.Type == PenaltyType && item.Flagged {", "E11.hyphen-guard"},
 		{"newline of a CRLF pair owned by no item", "text/linebreak.go", `\t\t\tif glyph\.Text != '\\n' \|\| i == 0 \|\| glyphs\[i-1\]\.Text != '\\r' \{`, "\t\t\tif glyph.Text == '\\n' && 0 < i && glyphs[i-1].Text == '\\r' {\n\t\t\t\tcontinue\n\t\t\t}\n\t\t\t{", "E11.items-cover-glyphs"},
 		{"glyph offset not advanced for penalties", "text.go", `\t\t\t\t\tshrink \+= items\[i\]\.Shrink\n\t\t\t\t\}\n\t\t\t\tbg2 \+= items\[i\]\.Size\n`, "\t\t\t\t\tshrink += items[i].Shrink\n\t\t\t\t\tbg2 += items[i].Size\n\t\t\t\t}\n", "E11.glyph-cursor"},
 		{"centred spans all placed at one X", "text.go", `line\.spans\[k\]\.X -= x / 2\.0`, "line.spans[k].X = -x / 2.0", "E11.span-shift"},
@@ -181,6 +190,8 @@ var Mutants = map[string][]Mutant{
 		{"Text.Heights uses the first line's top", "text.go", `\t_, ascent, _, _ := firstLine\.Heights\(t\.WritingMode\)`, "\tascent, _, _, _ := firstLine.Heights(t.WritingMode)", "E3.line-heights"},
 	},
 	"C17": {
+		{"break list sized before looseness picks the node", "text/linebreak.go", `(?s)\tif looseness != 0 \{\n\t\ts := 0\n\t\tk := b\.Line\n(.*?)breaks := make\(\[\]\*Breakpoint, b\.Line\+1\)`, "\tk := b.Line\n\tif looseness != 0 {\n\t\ts := 0\n${1}breaks := make([]*Breakpoint, k+1)", "E4.alloc-covers-index"},
+		{"break list one entry short", "text/linebreak.go", `breaks := make\(\[\]\*Breakpoint, b\.Line\+1\)`, "breaks := make([]*Breakpoint, b.Line)", "E4.alloc-covers-index"},
 		{"Linebreak looks at items[b-1] unguarded", "text/linebreak.go", `if 0 < b && lb\.items\[b-1\]\.Type == BoxType`, `if lb.items[b-1].Type == BoxType`, "E4.neighbour-guard"},
 		{"Linebreak looks at items[b+1] unguarded", "text/linebreak.go", `\(len\(lb\.items\) <= b\+1 \|\| lb\.items\[b\+1\]\.Type != PenaltyType\)`, `lb.items[b+1].Type != PenaltyType`, "E4.neighbour-guard"},
 	},
